@@ -1218,6 +1218,15 @@ N_EXTRA = [
     ("int g0;\nint g0;\nexport function f(int a) -> int { return a; }", "reject", "global-declared-twice"),
     ("export function f(int a, int a) -> int { return a; }", "reject", "parameter-declared-twice"),
     ("export function f(int a) -> int { int v = 1; int v = 2; return v; }", "reject", "same-block-twice"),
+    ("export function f(int a) -> int { int late = a * 2; return late; }\nint late;", "reject", "local-named-like-global-declared-after-the-function"),
+    ("export function f(int late) -> int { return late; }\nint late;", "reject", "parameter-named-like-global-declared-after-the-function"),
+    ("export function f(int a) -> int { { for (int late = 0; late < 2; ++late) { a = a + 1; } } return a; }\nfloat late;", "reject", "for-header-variable-named-like-global-declared-after-the-function"),
+    ("function g(int a) -> int { return a; }\nint late;\nexport function f(int a) -> int { int late = 1; return late; }", "reject", "local-named-like-global-declared-between-functions"),
+    ("struct light { int k; }\nexport function f(int a) -> int { light light; light.k = a; return light.k; }", "accept", "local-named-like-its-struct-type"),
+    ("struct sample { int k; }\nexport function f(int a) -> int { int sample = 3; return sample + a; }", "accept", "local-named-like-a-struct-type"),
+    ("struct sample { int k; }\nexport function f(int sample) -> int { return sample; }", "accept", "parameter-named-like-a-struct-type"),
+    ("struct inner { int k; }\nstruct outer { inner inner; int n; }\nexport function f(int a) -> int { outer o; o.inner.k = a; return o.inner.k; }", "accept", "field-named-like-its-struct-type"),
+    ("struct sample { int k; }\nexport function f(int a) -> int { for (int sample = 0; sample < 2; ++sample) { a = a + 1; } return a; }", "accept", "for-header-variable-named-like-a-struct-type"),
     ("function g(int, int b) -> int { int b = 7; return b; }\nexport function f(int a) -> int { return g(a, a); }", "reject", "parameter-after-unnamed-parameter-redeclared"),
     ("function g(int, float, int b) -> int { { int b = 7; } return b; }\nexport function f(int a) -> int { return g(a, 1.5, a); }", "reject", "parameter-after-two-unnamed-parameters-redeclared-in-block"),
     ("function g(int b, int) -> int { for (int b = 0; b < 2; ++b) { } return b; }\nexport function f(int a) -> int { return g(a, a); }", "reject", "parameter-before-unnamed-parameter-redeclared-in-for"),
@@ -1471,6 +1480,19 @@ def x_two_swizzle_cases(tier):
                        "units": [{"funcs": [], "entry": "f", "inputs": []}]}
 
 
+def x_module_level_cases(tier):
+    """The static checks also apply to expressions outside functions: initialisers of module-level variables."""
+    for name, src, expect in (
+            ("swizzle-beyond-size-in-global-initialiser", "float2 g;\nfloat y = g.z;\nexport function f(int a) -> int { return a; }\n", "reject"),
+            ("mixed-swizzle-in-global-initialiser", "float4 g;\nfloat2 y = g.xg;\nexport function f(int a) -> int { return a; }\n", "reject"),
+            ("valid-swizzle-in-global-initialiser", "float4 g;\nfloat2 y = g.xy;\nexport function f(int a) -> int { return a; }\n", "accept"),
+            ("index-above-range-in-global-initialiser", "int[3] g;\nint y = g[3];\nexport function f(int a) -> int { return a; }\n", "reject"),
+            ("index-in-range-in-global-initialiser", "int[3] g;\nint y = g[2];\nexport function f(int a) -> int { return a; }\n", "accept"),
+            ("float-index-in-global-initialiser", "int[3] g;\nfloat k;\nint y = g[k];\nexport function f(int a) -> int { return a; }\n", "reject"),
+            ("vector-index-above-range-in-global-initialiser", "float3 g;\nfloat y = g[3];\nexport function f(int a) -> int { return a; }\n", "reject")):
+        yield {"fam": "X", "expect": expect, "src": src, "desc": f"module-level;{name}", "why": name, "units": [{"funcs": [], "entry": "f", "inputs": []}]}
+
+
 def x_spelling_cases(tier):
     """Index constants whose SPELLING could be mistaken: hexadecimal numbers ending in f / F, in e / E, with l / u look-alikes."""
     for text, val in (("0xf", 15), ("0xF", 15), ("0x1f", 31), ("0x1F", 31), ("0x2f", 47), ("0x3F", 63), ("0x0f", 15), ("0x1e", 30), ("0x2E", 46), ("0xfe", 254), ("0x10", 16), ("0x01", 1), ("0x02", 2),
@@ -1489,6 +1511,7 @@ def x_spelling_cases(tier):
 @family("X")
 def fam_X(tier):
     yield from x_two_swizzle_cases(tier)
+    yield from x_module_level_cases(tier)
     yield from x_spelling_cases(tier)
     yield from x_bounds_cases(tier)
     yield from x_nested_bounds_cases(tier)
@@ -1735,6 +1758,7 @@ def c_arity_overload_case(which):
 C_OVERLOAD_SETS = {
     "vectors": ["int2", "float2", "float3", "float4"], "matrices-and-vectors": ["float3x3", "float4x4", "float3", "float4"],
     "scalars-and-vectors": ["int", "float", "int2", "float2"], "aggregates": ["PS", "int[3]", "float3", "int"],
+    "three-scalars": ["float", "uint", "int", "float2"],        # an int argument: two candidates one conversion away are declared before the exact one
 }
 
 
@@ -1744,7 +1768,8 @@ def c_many_sites_case(setname, order):
     ty = {"int": "int", "float": "float", "int2": VT("int", 2), "float2": VT("float", 2), "float3": VT("float", 3), "float4": VT("float", 4),
           "float3x3": ("mat", "float", 3, 3), "float4x4": ("mat", "float", 4, 4), "PS": ("struct", "PS"), "int[3]": ("arr", "int", (3,))}
     vals = {"int": 3, "float": 1.5, "int2": [1, 2], "float2": [1.5, 2.5], "float3": [1.5, 2.5, 3.5], "float4": [1.5, 2.5, 3.5, 4.5],
-            "float3x3": mat_value(3, 1), "float4x4": [[1.0, 2.0, 3.0, 4.0]] * 4, "PS": {"fa": 1, "hb": 2.5}, "int[3]": [1, 2, 3]}
+            "float3x3": mat_value(3, 1), "float4x4": [[1.0, 2.0, 3.0, 4.0]] * 4, "PS": {"fa": 1, "hb": 2.5}, "int[3]": [1, 2, 3], "uint": 4}
+    ty["uint"] = "uint"
     names = C_OVERLOAD_SETS[setname]
     helpers = [func("pick", [(ty[t], "p")], "int", [("ret", lit(100 + k))], export=False) for k, t in enumerate(names)]
     sites = [names[i] for i in order]
@@ -3045,6 +3070,10 @@ DF_SOURCES = [
     ("assignment-as-condition", "export function f(int a) -> int { int b; if (b = a) { return b; } return 2; }\n", {"a": 3}, {}),
     ("assignment-as-argument", "function g(int p) -> int { return p * 2; }\nexport function f(int a) -> int { int b; int r = g(b = a + 1); return r * 10 + b; }\n", {"a": 3}, {}),
     ("call-as-statement-and-index", "function g(int p) -> int { return p - 1; }\nexport function f(int a) -> int { int[3] q; q[g(a)] = 7; g(a); return q[g(3)]; }\n", {"a": 3}, {}),
+    ("overloads-with-different-parameter-names", "function scale(float s) -> float { return s * 2.0; }\nfunction scale(float3 v) -> float3 { return v * 2.0; }\nexport function f(float x) -> float { float3 w = scale(float3(x, x, x)); return scale(x) + w.y; }\n", {"x": 1.5}, {}),
+    ("overloads-with-different-parameter-counts", "function pick(int a, int b) -> int { return a * 10 + b; }\nfunction pick(int b) -> int { return b + 1; }\nexport function f(int a) -> int { return pick(a, 2) * 100 + pick(a); }\n", {"a": 3}, {}),
+    ("overloads-with-swapped-parameter-names", "function mixn(int a, float b) -> float { return a + b * 2.0; }\nfunction mixn(float b, int a) -> float { return b * 3.0 + a; }\nexport function f(int a) -> float { return mixn(a, 0.5) + mixn(0.5, a); }\n", {"a": 3}, {}),
+    ("overload-declared-between-callers", "function w(int p) -> int { return p + 1; }\nfunction c1(int a) -> int { return w(a); }\nfunction w(float q, int r) -> int { return r * 2; }\nexport function f(int a) -> int { return c1(a) * 10 + w(0.5, a); }\n", {"a": 3}, {}),
     ("import-of-nothing", "import \"does_not_exist\";\nexport function f(int a) -> int { return a; }\n", {"a": 3}, {}),
     ("only-declarations", "int g;\nstruct A { int x; }\n", None, {}),
     ("only-a-struct", "struct A { int x; }\n", None, {}),
